@@ -93,6 +93,8 @@ def execute(check, idx, seed, tier, tape=None, cap_s=120):
     out["wall"] = time.time() - t0
     h = hashlib.sha256()
     h.update(json.dumps(out.get("oplog", out.get("sample")), sort_keys=True, default=str).encode())
+    h.update(json.dumps(out.pop("trace", None), sort_keys=True, default=str).encode())
+    h.update(json.dumps([e[2] for e in ch.tape]).encode())
     h.update(json.dumps([[v["cls"], v["site"]] for v in out["violations"]]).encode())
     out["oplog_digest"] = h.hexdigest()[:24]
     return out
@@ -351,6 +353,16 @@ def run_batch(check, tier, seed, nproc=None, quiet=False):
             errors.append(f"HARNESS-NONDETERMINISM: replay of {path} did not reproduce {key} in a fresh interpreter (rc={p.returncode}): {p.stdout[-500:]} {p.stderr[-500:]}")
 
     wall = time.time() - t_start
+    # ---- determinism of the simulator itself (reduced in quick, full in thorough) -----------
+    selftest = None
+    try:
+        n_self = budget.get("selftest", 48 if tier == "thorough" else 6)
+        if n_self:
+            selftest = determinism_selftest(check, tier, seed, n_self, nproc, fresh=(tier == "thorough"))
+            if selftest["mismatches"]:
+                errors.append(f"HARNESS-NONDETERMINISM: determinism self-test found {len(selftest['mismatches'])} mismatching runs: {selftest['mismatches'][:2]}")
+    except Exception as e:
+        errors.append(f"determinism self-test failed to run: {type(e).__name__}: {e}")
     # ---- extra (thorough-tier self tests etc.) ---------------------------------------
     extra = {}
     if hasattr(check, "extra"):
@@ -383,6 +395,7 @@ def run_batch(check, tier, seed, nproc=None, quiet=False):
         "known_findings_hit": [{"cls": e["cls"], "site": e["site"], "runs": n} for e, v, n in known_hits],
         "harness_errors": len(errors),
         "exhaustive": False,
+        "determinism_selftest": None if selftest is None else {"runs": selftest["runs"], "passes": selftest["passes"], "mismatches": len(selftest["mismatches"])},
     }
     try:
         from . import corpus
@@ -434,6 +447,54 @@ def run_batch(check, tier, seed, nproc=None, quiet=False):
     return 0
 
 
+def _digest_task(args):
+    idxs, seed, tier = args
+    out = {}
+    for idx in idxs:
+        r = execute(_CHECK, idx, seed, tier, None)
+        out[idx] = r["oplog_digest"] if not r["error"] else "ERROR:" + r["error"][:200]
+    return out
+
+
+def determinism_selftest(check, tier, seed, n, nproc, fresh=True):
+    """
+    The same (seed, index) must give the same run, whatever process executes it and whatever ran before:
+    pass A = indices ascending over the worker pool, pass B = descending with another chunking, pass C = a fresh
+    interpreter executing them serially.  Digest = tape + op log + numeric trace + violations.
+    """
+    global _CHECK
+    _CHECK = check
+    ctx = multiprocessing.get_context("fork")
+    idxs = list(range(n))
+    res = {"runs": n, "passes": [], "mismatches": []}
+    with cf.ProcessPoolExecutor(max_workers=nproc, mp_context=ctx, initializer=_worker_init) as pool:
+        A = {}
+        for d in pool.map(_digest_task, [([i], seed, tier) for i in idxs]):
+            A.update(d)
+        B = {}
+        rev = idxs[::-1]
+        for d in pool.map(_digest_task, [(rev[i : i + 3], seed, tier) for i in range(0, n, 3)]):
+            B.update(d)
+    res["passes"] += ["pool_ascending_chunk1", "pool_descending_chunk3"]
+    for i in idxs:
+        if A[i] != B[i]:
+            res["mismatches"].append({"idx": i, "A": A[i], "B": B[i], "pass": "same interpreter, other worker/order"})
+    if fresh:
+        env = dict(os.environ, PYTHONHASHSEED="0", MPLBACKEND="agg", VERIF_SEED=str(seed))
+        p = subprocess.run([PY, "-m", "atomsim.check", check.ID, "--digests", str(n), "--tier", tier], cwd=VERIF, env=env, capture_output=True, text=True, timeout=3000)
+        line = [l for l in p.stdout.splitlines() if l.startswith("DIGESTS")]
+        if not line:
+            res["mismatches"].append({"pass": "fresh interpreter", "error": p.stderr[-500:]})
+        else:
+            C = {int(k): v for k, v in json.loads(line[0][7:]).items()}
+            res["passes"].append("fresh_interpreter_serial")
+            for i in idxs:
+                if A[i] != C.get(i):
+                    res["mismatches"].append({"idx": i, "A": A[i], "C": C.get(i), "pass": "fresh interpreter"})
+    res["errors"] = sum(1 for v in A.values() if v.startswith("ERROR"))
+    return res
+
+
 def run_replay(check, path, quiet=False):
     global _CHECK
     _CHECK = check
@@ -468,6 +529,8 @@ def main(argv=None):
     ap.add_argument("--quiet", action="store_true")
     ap.add_argument("--nproc", type=int, default=None)
     ap.add_argument("--runs", type=int, default=None)
+    ap.add_argument("--digests", type=int, default=None, help="print run digests of indices 0..N-1 executed serially (determinism self-test helper)")
+    ap.add_argument("--selftest", type=int, default=None, help="run the determinism self-test on N indices and exit")
     args = ap.parse_args(argv)
 
     if os.environ.get("PYTHONHASHSEED") != "0" or os.environ.get("MPLBACKEND") != "agg":
@@ -481,6 +544,19 @@ def main(argv=None):
     if args.runs is not None:
         orig = check.budget
         check.budget = lambda tier, _o=orig, _n=args.runs: dict(_o(tier), runs=_n)
+    if args.digests is not None:
+        global _CHECK
+        _CHECK = check
+        if hasattr(check, "prepare"):
+            check.prepare(args.tier)
+        print("DIGESTS" + json.dumps(_digest_task((list(range(args.digests)), seed, args.tier))))
+        return 0
+    if args.selftest is not None:
+        if hasattr(check, "prepare"):
+            check.prepare(args.tier)
+        r = determinism_selftest(check, args.tier, seed, args.selftest, args.nproc or 16)
+        print(json.dumps(r, indent=1)[:3000])
+        return 0 if not r["mismatches"] and not r["errors"] else 2
     if args.replay:
         return run_replay(check, args.replay, args.quiet)
     return run_batch(check, args.tier, seed, nproc=args.nproc, quiet=args.quiet)
